@@ -6,7 +6,7 @@ import (
 
 // callbacks for the namesake type's method
 
-func KS0(t *sub.T, x int) int { return 100000 }
-func KS1(t *sub.T, x int) int { return 100001 }
-func KS2(t *sub.T, x int) int { return 100002 }
-func KS3(t *sub.T, x int) int { return 100003 }
+func KS0(t *sub.T, x int) int { return cbv(x, 0) }
+func KS1(t *sub.T, x int) int { return cbv(x, 1) }
+func KS2(t *sub.T, x int) int { return cbv(x, 2) }
+func KS3(t *sub.T, x int) int { return cbv(x, 3) }
